@@ -62,7 +62,7 @@ def run(rec, cfg):
     MR.attach_apply()
     rng = cfg.rng("c02")
     rules = MR.rule_instances()
-    n = cfg.scale(170, 40000)
+    n = cfg.scale(110, 40000)
     for src, text, hints in equations(cfg, rng, n):
         if cfg.out_of_time():
             rec.truncated = True
